@@ -386,58 +386,10 @@ def pair_find_or_add(P, R, q):
 
 
 def pair_counters(P, R, cls='dd.bdd.BDD'):
-    """incref adds one; decref subtracts one only when positive."""
-    inc = P.func(f'{cls}.incref')
-    dec = P.func(f'{cls}.decref')
-    augs = [n for n in au.walk_no_defs(inc.node)
-            if isinstance(n, ast.AugAssign)]
-    ok = len(augs) == 1 and isinstance(augs[0].op, ast.Add) and \
-        au.const_int(augs[0].value) == 1 and \
-        au.src(augs[0].target).replace(' ', '') == 'self._ref[abs(u)]' and \
-        augs[0] in inc.node.body
-    if ok:
-        R.holds('R-PAIR', inc.qualname, 'adds exactly one, unconditionally')
-    else:
-        R.violation('R-PAIR', 'counter', inc.qualname, 'incref',
-                    'incref does not add exactly one to the count of '
-                    'abs(u) on every path', unit=inc.unit.rel,
-                    line=inc.lineno)
-    plist = pa.function_paths(dec.node, fork_guards=True)
-    bad = None
-    n = 0
-    for path in plist:
-        guard = None
-        for it in path:
-            if it[0] == 'test':
-                src = au.src(it[1]).replace(' ', '')
-                if src in ('self._ref[abs(u)]<=0', 'self._ref[abs(u)]<1',
-                           'notself._ref[abs(u)]',
-                           'self._ref[abs(u)]==0'):
-                    guard = not it[2]
-                elif src in ('self._ref[abs(u)]>0', 'self._ref[abs(u)]>=1',
-                             'self._ref[abs(u)]'):
-                    guard = it[2]
-            if it[0] == 'stmt' and isinstance(it[1], ast.AugAssign):
-                s = it[1]
-                n += 1
-                if not (isinstance(s.op, ast.Sub) and au.const_int(
-                        s.value) == 1 and au.src(s.target).replace(
-                            ' ', '') == 'self._ref[abs(u)]'):
-                    bad = (s, 'does not subtract exactly one from the '
-                              'count of abs(u)')
-                elif guard is not True:
-                    bad = (s, 'decrements without the guard that the count '
-                              'is positive: counts can become negative')
-    if n == 0:
-        bad = (dec.node, 'never decrements')
-    if bad:
-        R.violation('R-PAIR', 'counter', dec.qualname, 'decref',
-                    f'decref {bad[1]}', unit=dec.unit.rel,
-                    line=bad[0].lineno)
-    else:
-        R.holds('R-PAIR', dec.qualname,
-                'subtracts exactly one, only under the positive-count '
-                'guard')
+    """incref adds one; decref subtracts one only when positive: decided
+    on the small model (rules/models.py)."""
+    from . import models
+    models.counters_model(P, R, cls)
 
 
 def pair_collect(P, R, q):
@@ -713,24 +665,8 @@ r_pair.NAME = 'R-PAIR(node tables)'
 
 
 def mdd_counters(P, R):
-    dec = P.func('dd.mdd.MDD.decref')
-    ok = False
-    for n in au.walk_no_defs(dec.node):
-        if isinstance(n, ast.If):
-            t = au.src(n.test).replace(' ', '')
-            if t in ('self._ref[abs(u)]>0', 'self._ref[abs(u)]>=1') and \
-                    any(isinstance(s, ast.AugAssign) and isinstance(
-                        s.op, ast.Sub) and au.const_int(s.value) == 1
-                        for s in n.body):
-                ok = True
-    augs = [n for n in au.walk_no_defs(dec.node)
-            if isinstance(n, ast.AugAssign)]
-    if ok and len(augs) == 1:
-        R.holds('R-PAIR', dec.qualname, 'guarded decrement by one')
-    else:
-        R.violation('R-PAIR', 'counter', dec.qualname, 'decref',
-                    'MDD.decref is not a guarded decrement by one',
-                    unit=dec.unit.rel, line=dec.lineno)
+    from . import models
+    models.counters_model(P, R, 'dd.mdd.MDD')
 
 
 # ----------------------------------------------------------------- R-WRITERS
